@@ -209,7 +209,12 @@ func (j *jsonWriter) Struct(tag int, f func(writer)) {
 // TextString implements writer.
 func (j *jsonWriter) TextString(tag int, str string) {
 	j.encodeAppend(TypeTextString, tag, func(b []byte) []byte {
-		return strconv.AppendQuote(b, str)
+		// JSON string quoting (Go's strconv quoting emits \x, \a, \v and \U escapes, which are not JSON).
+		quoted, err := json.Marshal(str)
+		if err != nil {
+			panic(err)
+		}
+		return append(b, quoted...)
 	})
 }
 
